@@ -1,5 +1,6 @@
 import Pi2.KoreThm
 import Pi2.KoreTie
+import Pi2.KDefTie
 /-!
 # C20 — K execution traces become chained, checkable rewrite proofs
 
@@ -25,6 +26,13 @@ commit F16: a claim may be stated again).
   `convertSubst`: plain equations), `rewrite_event_text_is_the_model`, `trace_text_is_the_model`
   (`rewrite_event = rewriteEventF`, `from_proof_hints = traceF`, up to the order in which fuel runs out),
   `text_chain` (the chaining theorems stated directly about the translated `from_proof_hints`);
+* the construction of the semantics and the reading of the hints are the TEXT too (`Pi2/KDefTie.lean`; `Pi2/Gen/PyKDef.lean` is
+  regenerated from `language_semantics.py` / `rewrite_steps.py` on every run by `vlib/transkdef.py`; specification
+  `Pi2/KDefSpec.lean`): `kore_definition_text_is_the_model` (`from_kore_definition` on a one-module definition raises exactly when
+  `sigOfDefinition` refuses it, and otherwise returns a semantics whose signature is `sigOfDefinition`'s, whose `get_axiom ordinal` is
+  the rule with that ordinal — ordinals count ALL axioms —, whose cached scope per ordinal is the scope `conv` produced, and whose
+  `get_sort / get_symbol / resolve_to_ksymbol` are the lookups in the signature), `proof_hints_text_is_the_model` (`get_proof_hints` is
+  `traceStepsR`), `k_pipeline_text_is_the_model` (definition + hint stream ⟼ the claims of `traceF`, all from translated text);
 * acceptance of the serialised module by the checker is NOT a theorem here (the functional
   assumptions use a constrained metavariable, outside the fragment of `module_accepted`): it is decided
   by the real checker on every generated module in the check.
@@ -169,5 +177,79 @@ theorem text_chain (n : Nat) (sem : PySem) (h0 : PyHint) (hs : List PyHint) (hal
   · rw [h] at h1; cases h1
 
 end Text
+
+/-! ## the construction of the semantics and the hint stream: the Python text is the specification -/
+section Definition
+open PyI PyM PyK Gen.PyKDef KDefSpec KDefTie
+
+/-- `LanguageSemantics.from_kore_definition`, as translated from the source text, on a definition of the fragment (one module that
+does not import itself), for every valid set order and every fuel `≥ 2`: it raises exactly when the specification
+`sigOfDefinition` refuses the definition; otherwise it returns a store `h` whose signature (`sigView`: what the translated
+conversion and trace generator use) is `sigOfDefinition`'s, on which `get_axiom ordinal` returns exactly the rule with that ordinal
+(`ValueError` if the ordinal belongs to a skipped axiom or to none), whose cached scope per ordinal is the scope object of the
+scope `conv` produced, and on which `get_sort`, `get_symbol`, `resolve_to_ksymbol` are the lookups in the signature -/
+theorem kore_definition_text_is_the_model (so : SetOrder) (hso : so.Valid) (n : Nat) (d : KDefinition) (hf : InFragment d) :
+    Gen.PyKDef.translated = true ∧
+    match sigOfDefinition d with
+    | none => LanguageSemantics.from_kore_definition so (n + 2) d = raise
+    | some ds => ∃ h, LanguageSemantics.from_kore_definition so (n + 2) d = ret h ∧
+        sigView h = ds.sg ∧
+        (∀ o, LanguageSemantics.get_axiom (n + 2) h o = some ((ds.rule? o).map axiomOf)) ∧
+        (∀ o, h._cached_axiom_scopes.lookup o = (ds.rule? o).map fun ru => scopeObj ru.scope) ∧
+        (∀ k, (LanguageSemantics.get_sort so (n + 2) h k).map (Option.map fun s => s.name)
+            = some (if ds.sg.sorts.contains k then some k else none)) ∧
+        (∀ k, (LanguageSemantics.get_symbol so (n + 2) h k).map (Option.map symDeclOf) = some (ds.sg.symbols.find? (·.name == k))) ∧
+        (∀ s, (LanguageSemantics.resolve_to_ksymbol so (n + 2) h (.sym s)).map (Option.map (Option.map symDeclOf))
+            = ret (if s ≥ 2001 ∧ s < 100000 ∧ (s - 2001) % 2 = 0 then ds.sg.symbols.find? (·.name == (s - 2001) / 2) else none)) := by
+  refine ⟨KDefTie.translated, ?_⟩
+  have h1 := from_kore_definition_spec so hso n d hf
+  cases hd : sigOfDefinition d with
+  | none => rw [hd] at h1; exact h1
+  | some ds =>
+    rw [hd] at h1
+    obtain ⟨h, hh, hr⟩ := h1
+    exact ⟨h, hh, represents_sig hr, get_axiom_eq n hr, cached_scope_eq hr, get_sort_eq so hso n hr, get_symbol_eq so hso n hr,
+      resolve_to_ksymbol_eq so hso n hr⟩
+
+/-- `get_proof_hints`, as translated, on a finished semantics that represents `ds`: it raises exactly when the specification
+`traceStepsR` has no steps for the trace; otherwise it yields one `RewriteStepExpression` per step — the configurations before /
+after, the rule with the step's ordinal, the substitution converted in the rule's scope — and leaves a semantics that
+represents `ds` with the scopes the substitutions have extended -/
+theorem proof_hints_text_is_the_model (n : Nat) (h : PyLS) (ds : DefSem) (hr : Represents h ds) (tr : PyLLVMTrace) :
+    match traceStepsR ds tr with
+    | none => get_proof_hints (n + 2) h tr = raise
+    | some (_, rules', steps) =>
+        ∃ h', get_proof_hints (n + 2) h tr = ret (h', steps.map hintOf) ∧ Represents h' { ds with rules := rules' } :=
+  get_proof_hints_eq n hr tr
+
+/-- END TO END, all from translated text: a definition of the fragment with the meaning `ds`, a hint stream with the initial
+configuration `init` and the (rewrite) steps `s0 :: ss` ⟼ `from_kore_definition` returns a semantics, `get_proof_hints` the hints,
+and `ExecutionProofExp.from_proof_hints` on them is the model's `traceF ds.sg` from `init` over the steps (`trace_text_is_the_model`;
+`chain_claims` / `chain_links` then say what its claims are) -/
+theorem k_pipeline_text_is_the_model (so : SetOrder) (hso : so.Valid) (n k : Nat) (d : KDefinition) (hf : InFragment d) (ds : DefSem)
+    (hd : sigOfDefinition d = some ds) (tr : PyLLVMTrace) (init : NPat) (s0 : Step) (ss : List Step)
+    (ht : traceSteps ds tr = some (init, s0 :: ss)) (hrw : ∀ s ∈ s0 :: ss, s.rule.kind = .rewrite) :
+    ∃ ls ls' hints,
+      LanguageSemantics.from_kore_definition so (n + 2) d = ret ls ∧
+      get_proof_hints (n + 2) ls tr = ret (ls', hints) ∧
+      sigView ls' = ds.sg ∧
+      (Gen.PyKore.ExecutionProofExp.from_proof_hints k hints (semView ls')
+          = (match traceF ds.sg k (initSt init) (modelSteps (s0 :: ss)) with
+             | none => none
+             | some none => some none
+             | some (some st) => ret (some (KoreTie.withSt (Gen.PyKore.ExecutionProofExp.__init__ (semView ls') init) st)))
+        ∨ (traceF ds.sg k (initSt init) (modelSteps (s0 :: ss)) = none
+            ∧ Gen.PyKore.ExecutionProofExp.from_proof_hints k hints (semView ls') = some none)) :=
+  k_pipeline so hso n k d hf ds hd tr init s0 ss ht hrw
+
+/-- beyond the one-module fragment: `LanguageSemantics.module`, as translated, gives every later module the counter OBJECT of the
+main module and creates no new counter — the ordinals run on across the modules -/
+theorem modules_share_one_counter (h h' : PyLS) (name m' : Nat) (hne : h._imported_modules ≠ [])
+    (hm : LanguageSemantics.module h name = ret (h', m')) :
+    ∃ main mo mo', h._imported_modules.getLast? = some main ∧ h.modules[main]? = some mo ∧ h'.modules[m']? = some mo' ∧
+      mo'.counter = mo.counter ∧ h'.counters = h.counters ∧ h'._imported_modules = h._imported_modules ++ [m'] :=
+  module_shares_counter h h' name m' hne hm
+
+end Definition
 
 end C20
